@@ -108,7 +108,7 @@ func (c CLICase) expected(i int, r cliRow) cli.Row {
 		}
 		return row
 	}
-	return cli.Row{"number": "n:" + strconv.Itoa(i+i/2000), "text": "s:" + strconv.Itoa(i) + ":" + r.payload}
+	return cli.Row{"number": "n:" + strconv.Itoa(i), "text": "s:" + strconv.Itoa(i) + ":" + r.payload}
 }
 
 // Build returns the content and the expected output rows.
@@ -160,6 +160,9 @@ func genCLICase(t *rapid.T) CLICase {
 		Delay:  rapid.SampledFrom([]int{0, 7, 12345}).Draw(t, "delay"),
 		NoEOL:  rapid.IntRange(0, 3).Draw(t, "noeol") == 0,
 	}
+	if c.kind() == "lines" && c.Width > 20000 {
+		c.Width = 20000
+	}
 	if rapid.IntRange(0, 3).Draw(t, "jitter") == 0 {
 		c.Size += rapid.IntRange(-40, 40).Draw(t, "dsize")
 		if c.Size < 0 {
@@ -172,6 +175,9 @@ func genCLICase(t *rapid.T) CLICase {
 func (r *c23) cliProp(c CLICase) ev.Outcome {
 	if c.Width < 1 || c.Width > 40000 || c.Size < 0 || c.Size > 2000000 {
 		return ev.Outcome{Discard: true}
+	}
+	if c.kind() == "lines" && 3*c.Width+32 >= 65536 {
+		return ev.Outcome{Discard: true} // rows of 64 KiB and more are the in-process lines slice's subject (scanner token limit)
 	}
 	content, want := c.Build()
 	inv := cli.Inv{Env: []string{"GOMAXPROCS=" + strconv.Itoa(c.Procs)}}
